@@ -81,7 +81,7 @@ type Contracts struct {
 
 var clauseKinds = map[string]bool{"requires": true, "ensures": true, "invariant": true, "returns": true,
 	"fswrite": true, "assume": true, "assert": true, "params": true, "pure": true, "replay": true, "sweep": true,
-	"decreases": true, "opt": true, "frame": true, "impure": true, "guide": true, "at-call": true, "ghost": true, "sets": true, "slice-invariant": true, "havocs": true, "fsread": true}
+	"decreases": true, "opt": true, "frame": true, "impure": true, "guide": true, "at-call": true, "ghost": true, "sets": true, "slice-invariant": true, "watch": true, "ensures-bounded": true, "havocs": true, "fsread": true}
 
 var theoremRe = regexp.MustCompile(`^(\S+)\s*\(([^)]*)\)\s*:\s*(.*)$`)
 var lemmaPatRe = regexp.MustCompile(`^([A-Za-z_][A-Za-z0-9_.]*)\(([^)]*)\)\s*`)
@@ -294,6 +294,30 @@ func (cs *Contracts) parseContractFile(file string, repo bool, pkgPath string) e
 				last = nil
 			default:
 				c := Clause{Kind: word, File: file, Line: ln}
+				if word == "watch" {
+					// watch N: keyexpr   (N = ordinal of the map range statement)
+					i := strings.Index(rest, ":")
+					if i < 0 {
+						return fmt.Errorf("%s:%d: bad watch clause", file, ln)
+					}
+					n, err := strconv.Atoi(strings.TrimSpace(rest[:i]))
+					if err != nil {
+						return fmt.Errorf("%s:%d: bad watch clause: %v", file, ln, err)
+					}
+					c.Loop = n
+					c.Expr = strings.TrimSpace(rest[i+1:])
+					cur.Clauses = append(cur.Clauses, c)
+					last = &cur.Clauses[len(cur.Clauses)-1].Expr
+					continue
+				}
+				if word == "decreases" && !strings.HasPrefix(rest, "loop") {
+					// decreases label: expr  (recursion variant)
+					c.Label, c.Expr = splitLabel(rest)
+					c.Props = propsOf(c.Label)
+					cur.Clauses = append(cur.Clauses, c)
+					last = &cur.Clauses[len(cur.Clauses)-1].Expr
+					continue
+				}
 				if word == "invariant" || word == "decreases" {
 					// invariant N label: expr
 					i := strings.IndexAny(rest, " \t")
@@ -312,6 +336,15 @@ func (cs *Contracts) parseContractFile(file string, repo bool, pkgPath string) e
 					i := strings.IndexAny(rest, " \t")
 					if i < 0 {
 						return fmt.Errorf("%s:%d: slice-invariant needs a variable", file, ln)
+					}
+					c.Callee = rest[:i]
+					rest = strings.TrimSpace(rest[i+1:])
+				}
+				if word == "ensures-bounded" {
+					// ensures-bounded ADAPTER label: expr  -- assumed at call sites; checked by a bounded test, never counted as proved
+					i := strings.IndexAny(rest, " \t")
+					if i < 0 {
+						return fmt.Errorf("%s:%d: ensures-bounded needs an adapter", file, ln)
 					}
 					c.Callee = rest[:i]
 					rest = strings.TrimSpace(rest[i+1:])
